@@ -47,7 +47,10 @@ KCode(k) == CASE k = "mulmm" -> 1 [] k = "mulTm" -> 2 [] k = "mulmT" -> 3 [] k =
    [] k = "eye1" -> 7 [] k = "eye2" -> 8 [] k = "tri1" -> 9 [] k = "tri2" -> 10 [] k = "diag" -> 11 [] k = "diag1" -> 12 [] k = "diag2" -> 13
    [] k = "triL" -> 14 [] k = "triL1" -> 15 [] k = "triL2" -> 16 [] k = "triU" -> 17 [] k = "triU1" -> 18 [] k = "triU2" -> 19
 Init == kern = "none" /\ dims = <<0, 0, 0, 0>>
-Next == kern = "none" /\ \E k \in Kernels, a \in 1..D, b \in 1..D, c \in 1..D :
+\* a few large shapes as well (word-wise or unrolled loops show only beyond small dimensions)
+BigDims == {<<9, 8, 7>>, <<1, 17, 2>>, <<16, 3, 1>>, <<2, 1, 17>>, <<17, 17, 1>>, <<13, 1, 1>>}
+DimTriples == ((1..D) \X (1..D) \X (1..D)) \cup BigDims
+Next == kern = "none" /\ \E k \in Kernels, t \in DimTriples : LET a == t[1]  b == t[2]  c == t[3] IN
           /\ (k \notin {"mulmm", "mulTm", "mulmT", "mulTT"} => c = 1)
           /\ (k \in {"T1", "eye1", "tri1", "diag", "diag1", "triL", "triL1", "triU", "triU1"} => b = 1)
           /\ \E v \in {1, 2, 3, 4} : kern' = k /\ dims' = <<a, b, c, v>>
